@@ -288,10 +288,13 @@ Definition cmd_revert (log : list op) (hid : N) (h : op) (t : N) (wr wm : bool) 
               (* The merge records every commit that is in the target's view but not in
                  its parent's as rewritten/abandoned; [tx.finish] then rebases descendants
                  and moves heads, bookmarks and working copies off such commits whatever
-                 --what says.  The repo portions are therefore determined here only when no
-                 commit disappears (equal head sets) or when the reverted operation is the
-                 current one (then each merge yields the parent's value). *)
-              let known_repo := listN_eqb (v_heads b) (v_heads o) || (wr && veq5 cur b) in
+                 --what says (it does the same for commits of the target's view that the
+                 CURRENT view no longer has).  The repo portions are therefore determined here
+                 only when no commit disappears (target, its parent and the current view have
+                 equal head sets) or when the reverted operation is the current one (then each
+                 merge yields the parent's value). *)
+              let known_repo := (listN_eqb (v_heads b) (v_heads o) && listN_eqb (v_heads b) (v_heads cur))
+                                || (wr && veq5 cur b) in
               let pick {A} (known use_merged : bool) (merged : option A) (c : A) : option A :=
                   if known then (if use_merged then merged else Some c) else None in
               RNew [hid] (REVERT_OP_DESC_PREFIX ++ idstr t)%string
